@@ -322,7 +322,7 @@ def dedup(xs):
 
 
 def reaches_unclean(D, T, fuel=12):
-    """T can reach a collection type that carries allowed values (the class of the known finding)"""
+    """T can reach a collection type that carries allowed values (the class where the pinned commit nulled every list)"""
     if fuel == 0:
         return False
     k = T[0]
@@ -571,9 +571,10 @@ def judge(ctx, models, xmls, recs, stats):
                 ctx.nontrivial.add((rec['mi'], rec['i'], v))
             ctx.corr_checked += 1
             T = D[r[1]] if r[0] == 'n' else None
-            known = T is not None and reaches_unclean(D, T)
+            if T is not None and reaches_unclean(D, T):
+                stats['collection-with-allowed-values'] = stats.get('collection-with-allowed-values', 0) + 1
             # the law of the property, on the implementation's own output: a conforming value passes unchanged
-            if conf and got != v and not known:
+            if conf and got != v:
                 ctx.violation('a conforming input value does not reach the decision unchanged: type %s, value %s, decision saw %s'
                               % (idef_coq(T) if T else tref_attr(r), lit(v), json.dumps(ri['v'])), case_of(models, xmls, rec), impl=ri, model={'spec': lit(sp)})
                 continue
@@ -581,10 +582,7 @@ def judge(ctx, models, xmls, recs, stats):
                 if got != im:
                     ctx.corr_broken('var_eval', case_of(models, xmls, rec), ri['v'], lit(im) if im is None or im[0] != '?' else im)
                 continue
-            # the implementation differs from the Spec
-            if got == im and known:
-                if ctx.known('collection-allowed-values', rec):
-                    continue
+            # the implementation differs from the Spec (var_eval = input_spec is a theorem: there is no known class any more)
             ctx.violation('input of declared type %s: value %s reached the decision as %s, the property prescribes %s'
                           % (idef_coq(T) if T else tref_attr(r), lit(v) if rec['kind'] == 'in' else '(no entry)', json.dumps(ri['v']), lit(sp) if sp is None or sp[0] != '?' else sp),
                           case_of(models, xmls, rec), impl=ri, model={'impl_model': repr(im), 'spec': repr(sp)})
@@ -673,5 +671,5 @@ def replay(ctx, path):
 
 MANIFEST = dict(
     technique='Coq proof (per-copy transliteration of the item-definition / variable / type closures, refinement to a generic Spec, conformance laws for all type trees and values, output coercion from C16) with model/code correspondence on generated DMN documents',
-    text='Theorems (coq/Props/C11.v, closed under the global context) for every item-definition tree (simple, referenced, component, collection-of each; allowed values; references followed with fuel) and every value: the 8+8+8+16 copy-pasted closures compute one generic function each; the per-copy model equals the Spec outside the listed finding; conforming values pass unchanged; the result conforms (up to nulled components) or is null; checking is idempotent; a component type judges each component on its own; results are coerced to the output type as identity / wrap / unwrap / null (C16). Tied to model-evaluator/src/builders/{item_definition,item_definition_type,mod,decision}.rs by evaluating generated documents (all kinds to depth 3, values conforming and violating at every tree position) through evaluate_invocable.',
-    note='Trusted: Coq kernel + vm_compute, hand-written models (correspondence-checked, not verified), harness, FEEL parsing/evaluation of the generated literals and unary tests (sampled, not proved). Known finding collection-allowed-values; fixed: referenced types ignored their own allowed values.')
+    text='Theorems (coq/Props/C11.v, closed under the global context) for every item-definition tree (simple, referenced, component, collection-of each; allowed values; references followed with fuel) and every value: the 8+8+8+16 copy-pasted closures compute one generic function each; the per-copy model equals the Spec; conforming values pass unchanged; the result conforms (up to nulled components) or is null; checking is idempotent; a component type judges each component on its own; results are coerced to the output type as identity / wrap / unwrap / null (C16). Tied to model-evaluator/src/builders/{item_definition,item_definition_type,mod,decision}.rs by evaluating generated documents (all kinds to depth 3, values conforming and violating at every tree position) through evaluate_invocable.',
+    note='Trusted: Coq kernel + vm_compute, hand-written models (correspondence-checked, not verified), harness, FEEL parsing/evaluation of the generated literals and unary tests (sampled, not proved). Fixed: referenced types ignored their own allowed values; the allowed values of a collection were tested on the whole list.')
